@@ -22,6 +22,25 @@ SHRINK_FIELDS = ['intents']
 
 
 def generate(seed, tier, index):
+    if index % 6 == 5:
+        # all recorded histories, also ones with messages the tool cannot resolve; listing with `*` / the default filter only
+        import random
+        from .. import session as S
+        sc = c06.gen_session(seed, tier, {'connection': 1}, ncmd_range=(1, 4), initial_filter_p=0.0, pid=ID)
+        rng = random.Random('%d/orphans' % seed)
+        out = []
+        for it in sc['intents']:
+            out.append(it)
+            if it[0] == 'act' and rng.random() < 0.2:
+                out.append(['act', it[1], 'orphan', rng.randrange(1 << 30), rng.randrange(1 << 30), rng.randrange(1 << 30)])
+            if it[0] == 'act' and rng.random() < 0.12:
+                cap = rng.choice([None, None, 1, 2, 5, 1000])
+                text = rng.choice(['list', 'l', 'list *'])
+                m = {'kind': 'star'} if text.endswith('*') else None
+                out.append(['cmd', text + (' ~ %d' % cap if cap is not None else ''), {'t': 'list', 'm': m, 'cap': cap}])
+        sc['intents'] = out
+        sc['config']['orphans'] = True
+        return sc
     sc = c06.gen_session(seed, tier, CMD_WEIGHTS, ncmd_range=(2, 8), pid=ID)
     return sc
 
